@@ -9,7 +9,10 @@ package server_test
 import (
 	"encoding/json"
 	"errors"
+	"fmt"
+	"io"
 	"net"
+	"strings"
 	"sync"
 
 	"github.com/apernet/hysteria/core/v2/server"
@@ -21,6 +24,11 @@ type c08xSpec struct {
 	Obs     []string             `json:"obs"`
 	Allow   []bool               `json:"allow"`
 	Resolve map[string][2]string `json:"resolve"` // host -> [v4 text or "", v6 text or ""], absent host = lookup error
+	// per outbound, optional: "" the recording fake (allow flag) | the REAL leaf outbounds of extras/outbounds:
+	// "http" / "https" (HTTP proxy: no UDP) | "socks5" / "socks5auth" (a SOCKS5 proxy on loopback that grants UDP ASSOCIATE) |
+	// "direct:<mode 0..4>" (directOutbound, not bound).  A real leaf is wrapped: its own UDP() / CheckUDP() decide, the
+	// socket it hands out is closed at once and replaced by a recording one (nothing ever leaves the process).
+	Kinds []string `json:"kinds"`
 }
 
 var (
@@ -59,7 +67,8 @@ type c08xOb struct {
 }
 
 type c08xConn struct {
-	ob     *c08xOb
+	name   string
+	log    *c08xLog
 	once   sync.Once
 	closed chan struct{}
 }
@@ -70,14 +79,14 @@ func (c *c08xConn) ReadFrom(b []byte) (int, *outbounds.AddrEx, error) {
 }
 
 func (c *c08xConn) WriteTo(b []byte, a *outbounds.AddrEx) (int, error) {
-	c.ob.log.add("write:" + c.ob.name + ":" + a.String())
+	c.log.add("write:" + c.name + ":" + a.String())
 	return len(b), nil
 }
 
 func (c *c08xConn) Close() error {
 	c.once.Do(func() {
 		close(c.closed)
-		c.ob.log.add("close:" + c.ob.name)
+		c.log.add("close:" + c.name)
 	})
 	return nil
 }
@@ -87,7 +96,7 @@ func (o *c08xOb) TCP(reqAddr *outbounds.AddrEx) (net.Conn, error) { return nil, 
 func (o *c08xOb) UDP(reqAddr *outbounds.AddrEx) (outbounds.UDPConn, error) {
 	o.log.add("udp:" + o.name + ":" + c08xShow(reqAddr))
 	if o.allow {
-		return &c08xConn{ob: o, closed: make(chan struct{})}, nil
+		return &c08xConn{name: o.name, log: o.log, closed: make(chan struct{})}, nil
 	}
 	return nil, errC08xRefused
 }
@@ -98,6 +107,159 @@ func (o *c08xOb) CheckUDP(reqAddr *outbounds.AddrEx) error {
 		return nil
 	}
 	return errC08xRefused
+}
+
+
+// ---- real leaf outbounds
+
+// c08xLeaf wraps a real leaf outbound of extras/outbounds: the leaf's own UDP() and CheckUDP() answer; a socket it
+// hands out is closed immediately and a recording one is returned in its place.
+type c08xLeaf struct {
+	name  string
+	inner outbounds.PluggableOutbound
+	log   *c08xLog
+}
+
+func (o *c08xLeaf) TCP(reqAddr *outbounds.AddrEx) (net.Conn, error) { return nil, errC08xRefused }
+
+func (o *c08xLeaf) UDP(reqAddr *outbounds.AddrEx) (outbounds.UDPConn, error) {
+	o.log.add("udp:" + o.name + ":" + c08xShow(reqAddr))
+	c, err := o.inner.UDP(reqAddr)
+	if err != nil {
+		return nil, err
+	}
+	if c != nil {
+		_ = c.Close()
+	}
+	return &c08xConn{name: o.name, log: o.log, closed: make(chan struct{})}, nil
+}
+
+func (o *c08xLeaf) CheckUDP(reqAddr *outbounds.AddrEx) error {
+	o.log.add("chk:" + o.name + ":" + c08xShow(reqAddr))
+	return o.inner.CheckUDP(reqAddr)
+}
+
+// a minimal SOCKS5 proxy on loopback (RFC 1928 negotiation, RFC 1929 user/password, UDP ASSOCIATE granted with a relay
+// address nobody reads from); one per test process
+var (
+	c08xSocksOnce sync.Once
+	c08xSocksAddr string
+	c08xSocksErr  error
+)
+
+func c08xSocks() (string, error) {
+	c08xSocksOnce.Do(func() {
+		ln, err := net.Listen("tcp", "127.0.0.1:0")
+		if err != nil {
+			c08xSocksErr = err
+			return
+		}
+		relay, err := net.ListenPacket("udp", "127.0.0.1:0")
+		if err != nil {
+			c08xSocksErr = err
+			return
+		}
+		rport := relay.LocalAddr().(*net.UDPAddr).Port
+		c08xSocksAddr = ln.Addr().String()
+		go func() {
+			for {
+				c, err := ln.Accept()
+				if err != nil {
+					return
+				}
+				go c08xSocksServe(c, rport)
+			}
+		}()
+	})
+	return c08xSocksAddr, c08xSocksErr
+}
+
+func c08xSocksServe(c net.Conn, rport int) {
+	defer c.Close()
+	hd := make([]byte, 2)
+	if _, err := io.ReadFull(c, hd); err != nil || hd[0] != 5 {
+		return
+	}
+	ms := make([]byte, int(hd[1]))
+	if _, err := io.ReadFull(c, ms); err != nil {
+		return
+	}
+	method := byte(0)
+	if strings.IndexByte(string(ms), 2) >= 0 {
+		method = 2
+	}
+	if _, err := c.Write([]byte{5, method}); err != nil {
+		return
+	}
+	if method == 2 {
+		if _, err := io.ReadFull(c, hd); err != nil {
+			return
+		}
+		u := make([]byte, int(hd[1])+1)
+		if _, err := io.ReadFull(c, u); err != nil {
+			return
+		}
+		pw := make([]byte, int(u[len(u)-1]))
+		if _, err := io.ReadFull(c, pw); err != nil {
+			return
+		}
+		if _, err := c.Write([]byte{1, 0}); err != nil {
+			return
+		}
+	}
+	rq := make([]byte, 4)
+	if _, err := io.ReadFull(c, rq); err != nil {
+		return
+	}
+	n := 0
+	switch rq[3] {
+	case 1:
+		n = 4
+	case 4:
+		n = 16
+	case 3:
+		l := make([]byte, 1)
+		if _, err := io.ReadFull(c, l); err != nil {
+			return
+		}
+		n = int(l[0])
+	}
+	if _, err := io.ReadFull(c, make([]byte, n+2)); err != nil {
+		return
+	}
+	rep := byte(0)
+	if rq[1] != 3 { // only UDP ASSOCIATE
+		rep = 7
+	}
+	if _, err := c.Write([]byte{5, rep, 0, 1, 127, 0, 0, 1, byte(rport >> 8), byte(rport)}); err != nil {
+		return
+	}
+	_, _ = io.Copy(io.Discard, c) // the association lives as long as the TCP connection
+}
+
+func c08xRealLeaf(kind string) (outbounds.PluggableOutbound, error) {
+	switch {
+	case kind == "http":
+		return outbounds.NewHTTPOutbound("http://user:pw@127.0.0.1:9", false)
+	case kind == "https":
+		return outbounds.NewHTTPOutbound("https://127.0.0.1:9", true)
+	case kind == "socks5" || kind == "socks5auth":
+		addr, err := c08xSocks()
+		if err != nil {
+			return nil, err
+		}
+		if kind == "socks5auth" {
+			return outbounds.NewSOCKS5Outbound(addr, "user", "pw"), nil
+		}
+		return outbounds.NewSOCKS5Outbound(addr, "", ""), nil
+	case strings.HasPrefix(kind, "direct:"):
+		var m int
+		if _, err := fmt.Sscanf(kind, "direct:%d", &m); err != nil {
+			return nil, err
+		}
+		return outbounds.NewDirectOutboundSimple(outbounds.DirectOutboundMode(m)), nil
+	}
+	return nil, errors.New("unknown leaf kind " + kind)
 }
 
 // the resolver stage (shape of systemResolver / standardResolver) over a static table
@@ -168,6 +330,14 @@ func init() {
 		log := &c08xLog{}
 		obs := make([]outbounds.OutboundEntry, len(s.Obs))
 		for j, n := range s.Obs {
+			if j < len(s.Kinds) && s.Kinds[j] != "" {
+				inner, err := c08xRealLeaf(s.Kinds[j])
+				if err != nil {
+					return nil, err
+				}
+				obs[j] = outbounds.OutboundEntry{Name: n, Outbound: &c08xLeaf{name: n, inner: inner, log: log}}
+				continue
+			}
 			obs[j] = outbounds.OutboundEntry{Name: n, Outbound: &c08xOb{name: n, allow: s.Allow[j], log: log}}
 		}
 		eng, err := outbounds.NewACLEngineFromString(s.Rules, obs, nil)
